@@ -426,6 +426,11 @@ def run(ctx):
                     for suf in ("!", "\n", " "):
                         body = (pump * n)[:max(len(pump), SHORT - len(pre) - len(suf))]
                         calls.insert(0, (ep, pre + body + suf))
+            # numbers in notations whose VALUE is exponential in their length (exponents, long digit runs, hex / underscores):
+            # a field parsed as a number must not take time proportional to the value
+            for head in ("1e", "1E+", "9.9e", "1e-", "-1e", "0x", "1_", ""):
+                for k in (3, 5, 6, 7, 8, 9, 12, 18, 30):
+                    calls.insert(0, (ep, head + "9" * k))
             calls = list(dict.fromkeys(calls))
             stalled = 0
             for k in range(0, len(calls), 100):
